@@ -18,6 +18,11 @@ WOf(h, e) == [root |-> N(("host" :> StrV(h)) @@ ("data" :> Leaf(e)), <<>>), envs
 WAll(e) == [root |-> N(("host" :> StrV("L")) @@ ("primary" :> N(("data" :> Leaf(e)), <<>>))
                        @@ ("all" :> Dyn(Cat(<<Ref("primary.data"), Lit(" "), Ref("backup.data")>>))), <<>>),
             envs |-> <<N(("host" :> StrV("R")) @@ ("backup" :> N(("data" :> Leaf(e)), <<>>)), <<>>)>>, res |-> <<>>]
+\* two copies of the template under ONE root, unpacked by ONE call into struct{One struct{Data string}; Two struct{Data
+\* time.Duration}} (and the other way round): the text is no duration, the call fails AT the duration field's setting -
+\* the error names THAT copy (C14), whatever was read from the other copy before
+WPair(e) == [root |-> N(("host" :> StrV("H")) @@ ("one" :> N(("data" :> Leaf(e)), <<>>)) @@ ("two" :> N(("data" :> Leaf(e)), <<>>)), <<>>),
+             envs |-> <<>>, res |-> <<>>]
 Out(r) == IF IsE(r) THEN [err |-> r.err] ELSE [ok |-> r.ok]
 VARIABLES e, cs
 vars == <<e, cs>>
@@ -25,9 +30,12 @@ Init == e \in Exprs /\ cs = 0
 Next == /\ cs = 0 /\ cs' = 1 /\ UNCHANGED e
         /\ PrintT(ToJson([e |-> e, exp |-> [ideal |-> [s |-> Out(GetString({}, WOf("S", e), "data")),
                                                          d |-> Out(GetString({}, WOf("D", e), "data")),
-                                                         all |-> Out(GetString({}, WAll(e), "all"))], alts |-> <<>>]]))
+                                                         all |-> Out(GetString({}, WAll(e), "all")),
+                                                         one |-> Out(GetString({}, WPair(e), "one.data")),
+                                                         two |-> Out(GetString({}, WPair(e), "two.data"))], alts |-> <<>>]]))
 View == <<e, cs>>
 TabShare == ("primary.data" :> <<NF("primary"), NF("data")>>) @@ ("backup.data" :> <<NF("backup"), NF("data")>>)
+            @@ ("one.data" :> <<NF("one"), NF("data")>>) @@ ("two.data" :> <<NF("two"), NF("data")>>)
 \* the copies differ exactly by their tree: S and D read differently whenever the expression uses host
 Independent == cs = 1 => (GetString({}, WOf("S", e), "data") # GetString({}, WOf("D", e), "data"))
 ==========================================================================
